@@ -747,7 +747,7 @@ pub fn run(ctx: &mut Ctx) {
         Cfg { name: "renamed_with_min", tu: time_units_of(&rc1, "renamed_with_min", Some(&k1)), parser: CooklangParser::new(Extensions::all(), rc1) },
         Cfg { name: "renamed_without_min", tu: time_units_of(&rc2, "renamed_without_min", Some(&k2)), parser: CooklangParser::new(Extensions::all(), rc2) },
     ];
-    let n_random = ctx.budget(8_000, 1_500_000) as usize;
+    let n_random = ctx.budget(8_000, 6_000_000) as usize;
     let others = other_cases();
     let mut k = 0u64;
     for cfg in &cfgs {
